@@ -31,6 +31,11 @@ struct Rec {
     // cancellation that happens while the submitter is still inside run().
     alignas(cocls::future<int>) unsigned char fut_mem[sizeof(cocls::future<int>)];
     cocls::future<int> *fut = nullptr;
+    // kind "aw": the future the coroutine awaits through pool(future) and its promise (heap objects: leaked when the
+    // script never resolves them, a suspended coroutine may still refer to them)
+    cocls::future<int> *awfut = nullptr;
+    cocls::promise<int> *awp = nullptr;
+    int target = 0;     // kinds "rvj"/"rv": the aw job whose future is resolved
 };
 
 struct World;
@@ -77,6 +82,28 @@ static cocls::async<int> asy_job(World &w, int j) {
     job_begin(w, j);
     job_end(w, j);
     co_return j;
+}
+
+// co_await pool(future) with two extra scheduling points: before await_ready() and before await_suspend(); whatever
+// await_suspend() of the pool's awaiter returns (bool today) is passed through exactly as the compiler would use it
+template<typename Inner>
+struct Stepper {
+    Inner inner;
+    bool await_ready() { vsched::mark("aw0"); return inner.await_ready(); }
+    auto await_suspend(std::coroutine_handle<> h) { vsched::mark("awb"); return inner.await_suspend(h); }
+    decltype(auto) await_resume() { return inner.await_resume(); }
+};
+
+static cocls::async<void> aw_job(World &w, int j) {
+    try {
+        using Inner = decltype((*w.pool)(*w.recs[j].awfut));
+        int v = co_await Stepper<Inner>{(*w.pool)(*w.recs[j].awfut)};
+        (void) v;
+        job_begin(w, j);
+        job_end(w, j);
+    } catch (const cocls::await_canceled_exception &) {
+        w.recs[j].cancelled++;
+    }
 }
 
 static cocls::async<void> res_job(World &w, int j) {
@@ -159,6 +186,13 @@ static void client(World &w) {
         int j = (int) i + 1;
         const std::string &k = w.script[i];
         if (k == "stop") { w.pool->stop(); continue; }
+        if (k == "rv") {
+            vsched::mark("rv");
+            int tg = 0;
+            for (int m = j - 1; m >= 1 && !tg; m--) if (w.script[m - 1] == "aw") tg = m;
+            if (tg) (*w.recs[tg].awp)(tg);
+            continue;
+        }
         Rec *r = &w.recs[j];
         World *pw = &w;
         if (k == "co") {
@@ -176,6 +210,15 @@ static void client(World &w) {
         } else if (k == "res") {
             cocls::suspend_point<void> sp = res_job(w, j).detach();
             w.pool->resume(std::move(sp));
+        } else if (k == "aw") {
+            aw_job(w, j).detach();
+        } else if (k == "rvj") {
+            int tg = r->target;
+            w.pool->run_detached([pw, j, tg, g = std::make_unique<Guard>(r)] {
+                g->called = true; job_begin(*pw, j);
+                if (tg) (*pw->recs[tg].awp)(tg);
+                job_end(*pw, j);
+            });
         }
     }
 }
@@ -185,7 +228,15 @@ static void run(const Scenario &sc, Reporter &rep) {
     World &w = *pw;
     for (auto &x : sc.hdr.at("script").l) w.script.push_back(x.s);
     w.nworkers = (int) sc.hdr.at("workers").as_int(1);
-    for (std::size_t i = 0; i < w.script.size(); i++) if (w.script[i] != "stop") w.recs[(int) i + 1].kind = w.script[i];
+    for (std::size_t i = 0; i < w.script.size(); i++) if (w.script[i] != "stop" && w.script[i] != "rv") w.recs[(int) i + 1].kind = w.script[i];
+    for (auto &kv : w.recs) {
+        if (kv.second.kind == "aw") {
+            kv.second.awfut = new cocls::future<int>();
+            kv.second.awp = new cocls::promise<int>(kv.second.awfut->get_promise());
+        } else if (kv.second.kind == "rvj") {
+            for (std::size_t m = (std::size_t) kv.first; m < w.script.size() && !kv.second.target; m++) if (w.script[m] == "aw") kv.second.target = (int) m + 1;
+        }
+    }
     w.sched.lock_grain = true;
     w.sched.adopt_threads = true;
     w.sched.install();
@@ -219,6 +270,7 @@ static void run(const Scenario &sc, Reporter &rep) {
     w.pool.reset();
     // futures of cancelled/ran jobs are ready; a never-resolved future (dropped submission) must not be destroyed
     for (auto &kv : w.recs) if (kv.second.fut && kv.second.fut->ready()) kv.second.fut->~future();
+    for (auto &kv : w.recs) if (kv.second.awfut && kv.second.awfut->ready()) { delete kv.second.awp; delete kv.second.awfut; }
     delete pw;
 }
 
